@@ -70,6 +70,11 @@ def run(chk):
         sph = rng.random() < 0.35
         mode = rng.choice(["random", "random", "affine", "zero", "corner"])
         dense = wi % 5 == 3
+        patch = wi % 5 == 1
+        if patch:
+            # a locally refined patch of value points a few hundredths of a degree apart in a spherical world: triangles whose
+            # area is tiny in the surface coordinates (rad^2) interpolate like all others
+            sph, mode = True, "affine"
         if dense:
             # many value points, half of them nearly collinear (thin triangles), on a footprint across the date line: the search
             # for the triangle of a point goes beyond the triangle of the nearest centroid, for both copies of the longitude
@@ -80,6 +85,9 @@ def run(chk):
             if dense:
                 cx, cy = rng.choice([-1, 1]) * g.num(174, 186, 1), g.num(-40, 40, 1)
             poly = g.polygon(cx, cy, g.num(3, 20, 1))
+            if patch:
+                cx, cy = g.num(-150, 150, 1), g.num(-60, 60, 1)
+                poly = [[cx - 0.6, cy - 0.6], [cx + 0.6, cy - 0.6], [cx + 0.6, cy + 0.6], [cx - 0.6, cy + 0.6]]
             if dense:
                 poly = g.polygon(cx, cy, g.num(12, 20, 1), n=rng.randint(5, 8))
         else:
@@ -99,6 +107,12 @@ def run(chk):
             affine = (A, B, C)
             fval = lambda p: A * p[0] + B * p[1] + C
             pts = [list(c) for c in poly] + [g.interior_point(poly) for _ in range(rng.randint(1, 5))]
+            patch_pts = []
+            if patch:
+                px0, py0 = round(cx + rng.uniform(-0.3, 0.3), 2), round(cy + rng.uniform(-0.3, 0.3), 2)
+                h = rng.choice([0.05, 0.03, 0.04])
+                pts = [list(c) for c in poly] + [[round(px0 + h * a_, 3), round(py0 + h * b_, 3)] for a_ in range(3) for b_ in range(3)]
+                patch_pts = [(px0 + rng.uniform(0.05, 1.95) * h, py0 + rng.uniform(0.05, 1.95) * h) for _ in range(14)]
             if dense:
                 a0, a1 = g.interior_point(poly), g.interior_point(poly)
                 for k in range(rng.randint(6, 10)):
@@ -165,6 +179,8 @@ def run(chk):
         for _ in range(nq):
             ip = g.interior_point(poly)
             qs.append(conv(sph, ip) if sph else (float(ip[0]), float(ip[1])))
+        if mode == "affine" and patch_pts:
+            qs += [conv(sph, p) for p in patch_pts]
         if sph:
             # the same points written on the other 360-degree branch of the longitude
             qs += [((q[0] - 2 * PI) if q[0] > 0 else (q[0] + 2 * PI), q[1]) for q in qs[-nq:]]
